@@ -761,6 +761,8 @@ def parse_tree_to_objgraph(
                         scope_provider=p,
                         match_rule_name=rn,
                     )
+                    # end of the reference text (tool support)
+                    value.position_end = node[0].position_end
                     parser._crossrefs.append((model_obj, metaattr, value))
                     return model_obj
 
@@ -791,6 +793,8 @@ def parse_tree_to_objgraph(
                                 scope_provider=p,
                                 match_rule_name=rn,
                             )
+                            # end of the reference text (tool support)
+                            value.position_end = n.position_end
 
                             parser._crossrefs.append((obj_attr, metaattr, value))
                             continue
@@ -1246,7 +1250,13 @@ class ReferenceResolver:
                         RefRulePosition(
                             name=crossref.obj_name,
                             ref_pos_start=crossref.position,
-                            ref_pos_end=crossref.position + len(str(crossref.obj_name)),
+                            # The reference text may be longer than the name
+                            # (e.g. `p . A` matched by FQN gives `p.A`).
+                            ref_pos_end=getattr(
+                                crossref,
+                                "position_end",
+                                crossref.position + len(str(crossref.obj_name)),
+                            ),
                             def_file_name=get_model(resolved)._tx_filename,
                             def_pos_start=resolved._tx_position,
                             def_pos_end=resolved._tx_position_end,
